@@ -181,7 +181,49 @@ class Walker:
             obs['synsets'][key] = self.synset(x)
         self.call('Wordnet.ilis')
         obs['ilis'] = [self.ili(i) for i in w.ilis()]
+        obs['byid'] = self.by_id(w, obs)
         return obs
+
+    def by_id(self, w, obs):
+        """Look-ups by identifier through the same Wordnet: the result must be one of the enumerated entities carrying
+        that identifier (identifiers may collide between lexicons of the scope: any of them is admissible), equal to it
+        when there is only one; an unknown identifier is a wn.Error.  Only what is wrong is filed."""
+        bad = {}
+        for kind, getter, lister in (('words', w.word, w.words), ('senses', w.sense, w.senses), ('synsets', w.synset, w.synsets)):
+            cands = {}
+            for key in obs[kind]:
+                if not key.endswith('#dup'):
+                    cands.setdefault(key.split('::', 1)[1], []).append(key)
+            objs = {}
+            for x in lister():
+                objs.setdefault(x.id, []).append(x)
+            for id_, keys in cands.items():
+                self.call(f'Wordnet.{kind[:-1]}(id)')
+                try:
+                    got = getter(id_)
+                except wn.Error as exc:
+                    bad[f'{kind[:-1]}({id_!r})'] = f'wn.Error: {exc}'
+                    continue
+                k = self.k(got, f'Wordnet.{kind[:-1]}(id)')
+                if k not in keys:
+                    bad[f'{kind[:-1]}({id_!r})'] = f'returned {k}, which is not among the enumerated {keys}'
+                elif len(keys) == 1 and not (got == objs[id_][0] and hash(got) == hash(objs[id_][0])):
+                    bad[f'{kind[:-1]}({id_!r})'] = 'the object looked up by id is not equal to the enumerated one'
+            try:
+                got = getter('\x7fno such id')
+                bad[f'{kind[:-1]}(unknown id)'] = f'returned {got!r} instead of raising wn.Error'
+            except wn.Error:
+                pass
+        for i in obs['ilis']:
+            if i and i[0] is not None:
+                self.call('Wordnet.ili(id)')
+                try:
+                    got = w.ili(i[0])
+                    if [got.id, got.status, got.definition()] != list(i):
+                        bad[f'ili({i[0]!r})'] = f'reports {[got.id, got.status, got.definition()]}, the listing {i}'
+                except wn.Error as exc:
+                    bad[f'ili({i[0]!r})'] = f'wn.Error: {exc}'
+        return bad
 
 
 def observe(w, rec=None, visit=None, relations=True):
